@@ -898,6 +898,12 @@ class Server:
 
         Server connection handler (main routine per user).
         """
+        server = getattr(self, "server", None)
+        if server is not None and not server.is_serving():
+            # accepted just before `close`, which did not see (and will not
+            # cancel) this session: do not start it
+            writer.close()
+            return
         host, port, *_ = writer.transport.get_extra_info("peername", ("", ""))
         current_server_host, *_ = writer.transport.get_extra_info("sockname")
         logger.info("new connection from %s:%s", host, port)
